@@ -301,6 +301,19 @@ func (s *st) pickOut(mode string, wantDeg, lmin, allocLvl int, op0 *ent, op1 *en
 		if op1 != nil && op1.ct != nil {
 			return outSel{mode: mode, ct: op1.ct, lvl: op1.level()}
 		}
+	case "deg0":
+		// a used receiver of degree 0: it has to grow by one or two components
+		lvl := lmin
+		switch s.rnd.N(4) {
+		case 0:
+			lvl = s.params.MaxLevel()
+		case 1:
+			if lmin > s.lcpr {
+				lvl = lmin - 1
+			}
+		}
+		s.c.Count("receiver_degree0_calls", 1)
+		return outSel{mode: mode, ct: s.dirtyCt(0, lvl), lvl: lvl}
 	case "large", "small":
 		// a used receiver whose degree differs from the degree of the result: one more component
 		// (stale data in it must not survive) or one less (the receiver has to grow)
@@ -479,6 +492,9 @@ func (s *st) binary(op string, a *ent, b *operand, mode string) (res *ent, skipp
 	lvl := ex.level
 	if mode == "large" {
 		ex.degMax = out.ct.Degree()
+	}
+	if mode == "deg0" {
+		ex.pred = "receiver-degree-0"
 	}
 
 	// value / scale / budget model
